@@ -251,8 +251,10 @@ def _mentions_include_exclude(klass, meth, depth=0):
                 for pos, arg in enumerate(node.args):
                     if V.mentions(arg, derived) and pos < len(hpars):
                         hder = V.derived_names(helper.node, {hpars[pos]})
-                        if any(isinstance(t, (ast.If, ast.IfExp)) and
-                               V.mentions(t.test, hder)
+                        if any((isinstance(t, (ast.If, ast.IfExp)) and
+                                V.mentions(t.test, hder)) or (
+                                    isinstance(t, ast.comprehension) and any(
+                                        V.mentions(i, hder) for i in t.ifs))
                                for t in ast.walk(helper.node)):
                             hits.add(par)
     return hits == {'include', 'exclude'}
